@@ -310,6 +310,7 @@ func normalizeRule(c *core.Ctx, p *pduInfo) {
 	}
 	var bad []string
 	pk := 0
+	pkSeen := map[string]bool{}
 	for _, a := range p.Enc.Assigns {
 		f := a.Field.String()
 		switch {
@@ -327,7 +328,10 @@ func normalizeRule(c *core.Ctx, p *pduInfo) {
 			if a.Cond == nil || !one || !bothZeroAtStore(c, p, f) {
 				bad = append(bad, fmt.Sprintf("field %s is rewritten under `%s`: only the all-zero part counter may be defaulted to 1/1", f, cond))
 			}
-			pk++
+			if !pkSeen[f] {
+				pk++
+			}
+			pkSeen[f] = true
 		default:
 			bad = append(bad, fmt.Sprintf("IEncode assigns receiver field %s (at %s): relaying a decoded PDU changes it", f, c.Prog.Pos(a.Pos)))
 		}
